@@ -22,6 +22,7 @@ const DEST: &[u8] = b"0xDestinationOnRemote";
 
 #[derive(Clone, Hash)]
 struct Model {
+    advances: u8,
     t1: bool,
     t2: bool,
     trusted: bool,
@@ -54,6 +55,7 @@ enum Act {
     Out { token: u8, sender: usize, amt: Amt, trusted_dest: bool, data: bool, gas: u8, auth: bool },
     /// recipient: 0 = U2, 1 = app with data
     In { token: u8, recipient: u8, amt: Amt },
+    Advance(u32),
 }
 
 struct Ctx {
@@ -99,6 +101,7 @@ impl Scenario for C05 {
         let holders = vec![iw.users[0].clone(), iw.users[1].clone(), iw.app.clone(), iw.its.clone(), iw.gas.clone()];
         let ctx = Ctx { iw, t1_id, t1, t2_id, holders };
         let mut m = Model {
+            advances: 0,
             t1: false,
             t2: false,
             trusted: true,
@@ -151,6 +154,9 @@ impl Scenario for C05 {
         }
         v.push(Act::RemoveTrusted);
         v.push(Act::SetTrusted);
+        if m.advances < 1 {
+            v.push(Act::Advance(20));
+        }
         v
     }
 
@@ -160,6 +166,13 @@ impl Scenario for C05 {
         let env = &w.env;
         let h0 = w.state_hash();
         match a {
+            Act::Advance(n) => {
+                out.kind = "advance";
+                out.accepted = true;
+                w.set_seq(w.seq() + n);
+                w.set_time(w.now() + 5 * *n as u64);
+                m.advances += 1;
+            }
             Act::Deploy => {
                 out.kind = "deploy";
                 let u = [iw.users[0].clone()];
